@@ -118,7 +118,8 @@ func (r *recBuf) snap() (in, out []byte) {
 type wireEx struct {
 	ReqFields  [][2]string
 	HasBody    bool     // h2: HEADERS without END_STREAM; h3: at least one DATA frame
-	ReqChunks  [][]byte // DATA frame payloads
+	ReqChunks  [][]byte // non-empty DATA frame payloads
+	FinLast    bool     // h2: the last DATA frame with payload carried END_STREAM
 	RespFields [][2]string
 	RespData   []byte
 }
@@ -244,7 +245,10 @@ func parseH2Dir(b []byte, fromClient bool, streams map[uint32]*h2Stream, order *
 			s := get(f.StreamID)
 			d := append([]byte(nil), f.Data()...)
 			if fromClient {
-				s.ReqChunks = append(s.ReqChunks, d)
+				if len(d) > 0 {
+					s.ReqChunks = append(s.ReqChunks, d)
+					s.FinLast = f.StreamEnded()
+				}
 			} else {
 				s.RespData = append(s.RespData, d...)
 			}
@@ -562,7 +566,11 @@ func pairs23(r *hk.Run, rng *hk.Rand, count int, st stack) {
 			if k >= len(ex.Resps) {
 				break
 			}
-			coqX = append(coqX, fmt.Sprintf("%s %s %s %s %s", st.ctor, coqFields(w.ReqFields, pl), coqChunks(w.HasBody, w.ReqChunks, pl), coqFields(w.RespFields, pl), coqReads(xs[k], pl)))
+			fin := ""
+			if st.ctor == "X2" {
+				fin = " " + hk.CoqBool(w.FinLast)
+			}
+			coqX = append(coqX, fmt.Sprintf("%s %s %s%s %s %s", st.ctor, coqFields(w.ReqFields, pl), coqChunks(w.HasBody, w.ReqChunks, pl), fin, coqFields(w.RespFields, pl), coqReads(xs[k], pl)))
 		}
 		want := expectedContents(cfg, xs)
 		if which, g, w, ok := compareContents(on.Sink, want); !ok {
